@@ -24,7 +24,7 @@ package termincommittee
 // storage versions pver/cver/vcver.
 
 // everything a handler of this term may write (heap cells of live objects and ghost state)
-//@ modset TIC = termincommittee.TermInCommittee.preparedLocally, termincommittee.TermInCommittee.committedBlock, termincommittee.TermInCommittee.latestViewThatProcessedVCMOrNVM, state.State.height, state.State.view, M:S_state_HeightView:Int, ghost:ppStored, ghost:ppHash, ghost:sentPrepare, ghost:sentPrepareHash, ghost:sentCommit, ghost:sentCommitHash, ghost:proposed, ghost:lastVC, ghost:ncommitted, ghost:pver, ghost:cver, ghost:vcver, ghost:cancelled
+//@ modset TIC = ghost:lastCommitHeight, ghost:lastRoundHeight, termincommittee.TermInCommittee.preparedLocally, termincommittee.TermInCommittee.committedBlock, termincommittee.TermInCommittee.latestViewThatProcessedVCMOrNVM, state.State.height, state.State.view, M:S_state_HeightView:Int, ghost:ppStored, ghost:ppHash, ghost:sentPrepare, ghost:sentPrepareHash, ghost:sentCommit, ghost:sentCommitHash, ghost:proposed, ghost:lastVC, ghost:ncommitted, ghost:pver, ghost:cver, ghost:vcver, ghost:cancelled
 
 //@ pred IsMember(members []interfaces.CommitteeMember, id primitives.MemberId) = exists mi :: 0 <= mi && mi < len(members) && members[mi].Id == id
 //@ pred LeaderOf(members []interfaces.CommitteeMember, v primitives.View) = members[v % len(members)].Id
@@ -42,6 +42,7 @@ package termincommittee
 //@   | && (ncommitted == 0 ==> (forall gv int :: ppStored[gv] ==> gv <= tic.State.view))
 //@   | && (ncommitted == 0 ==> tic.latestViewThatProcessedVCMOrNVM <= tic.State.view)
 //@   | && (ncommitted == 0 ==> lastVC <= tic.State.view)
+//@   | && (ncommitted == 0 ==> lastCommitHeight < tic.State.height)
 //@   | && (ncommitted == 0 && tic.preparedLocally != nil && tic.preparedLocally.isPreparedLocally ==> tic.preparedLocally.latestView <= tic.State.view)
 
 // the lock (prepared certificate) is never dropped or moved back within a term (C09)
@@ -87,6 +88,7 @@ package termincommittee
 //@   requires [O8.1.from-leader] ppm.content.Sender().MemberId() == LeaderOf(caller.committeeMembers, ppm.content.SignedHeader().View())
 //@   requires [O8.1.current-view] ppm.content.SignedHeader().View() == caller.State.view
 //@   requires [O4.1.block-satisfies-hash] Commits(caller.blockUtils, ppm.content.SignedHeader().BlockHeight(), ppm.block, ppm.content.SignedHeader().BlockHash())
+//@   requires [O4.4.block-has-this-height] ppm.block != nil && ppm.block.Height() == ppm.content.SignedHeader().BlockHeight()
 //@   modifies ghost:ppStored, ghost:ppHash
 //@   ensures ppStored[ppm.content.SignedHeader().View()]
 //@   ensures old(ppStored[ppm.content.SignedHeader().View()]) ==> ppHash[ppm.content.SignedHeader().View()] == old(ppHash[ppm.content.SignedHeader().View()])
@@ -124,6 +126,7 @@ package termincommittee
 
 //@ iface interfaces.Storage.GetPreprepareMessage
 //@   ensures result1 == ppStored[view]
+//@   ensures result1 ==> ProposalOK(caller, result0)
 //@   ensures result1 ==> result0 != nil && result0.content != nil && result0.content.SignedHeader().View() == view
 //@     | && result0.content.SignedHeader().BlockHeight() == blockHeight && content(result0.content.SignedHeader().BlockHash()) == ppHash[view]
 
@@ -170,10 +173,12 @@ package termincommittee
 //@     | && commitMessages[i].content.SignedHeader().View() == commitMessages[0].content.SignedHeader().View()
 //@     | && commitMessages[i].content.SignedHeader().BlockHash() == commitMessages[0].content.SignedHeader().BlockHash()
 //@   requires [O3.1.height] commitMessages[0].content.SignedHeader().BlockHeight() == caller.State.height
+//@   requires [O13.6.commit-heights-strictly-increase] block != nil && block.Height() == caller.State.height && lastCommitHeight < block.Height()
+//@   requires [O4.1.block-satisfies-certified-hash] Commits(caller.blockUtils, commitMessages[0].content.SignedHeader().BlockHeight(), block, commitMessages[0].content.SignedHeader().BlockHash())
 //@   requires [O4.1.block-of-accepted-proposal] block != nil && ppStored[commitMessages[0].content.SignedHeader().View()]
 //@     | && ppHash[commitMessages[0].content.SignedHeader().View()] == content(commitMessages[0].content.SignedHeader().BlockHash())
-//@   modifies state.State.height, state.State.view, M:S_state_HeightView:Int, ghost:ncommitted, ghost:pver, ghost:cver, ghost:vcver, ghost:cancelled
-//@   ensures ncommitted == old(ncommitted) + 1
+//@   modifies state.State.height, state.State.view, M:S_state_HeightView:Int, ghost:ncommitted, ghost:pver, ghost:cver, ghost:vcver, ghost:cancelled, ghost:lastCommitHeight, ghost:lastRoundHeight
+//@   ensures ncommitted == old(ncommitted) + 1 && lastCommitHeight >= old(lastCommitHeight)
 
 //@ func (*TermInCommittee).HandlePrepare
 //@   requires [term-not-yet-committed] ncommitted == 0
@@ -240,12 +245,14 @@ package termincommittee
 //@   | && ppm.content.Sender().MemberId() == LeaderOf(tic.committeeMembers, ppm.content.SignedHeader().View())
 //@   | && ppm.content.SignedHeader().BlockHeight() == tic.State.height
 //@   | && Commits(tic.blockUtils, ppm.content.SignedHeader().BlockHeight(), ppm.block, ppm.content.SignedHeader().BlockHash())
+//@   | && ppm.block != nil && ppm.block.Height() == ppm.content.SignedHeader().BlockHeight()
 
+// A-SPI: a block the consumer accepts / produces for height h satisfies the hash and has height h
 //@ iface interfaces.BlockUtils.ValidateBlockProposal
-//@   ensures result == nil ==> Commits(self, blockHeight, block, blockHash)
+//@   ensures result == nil ==> Commits(self, blockHeight, block, blockHash) && block != nil && block.Height() == blockHeight
 
 //@ iface interfaces.BlockUtils.RequestNewBlockProposal
-//@   ensures Commits(self, blockHeight, result0, result1)
+//@   ensures Commits(self, blockHeight, result0, result1) && result0 != nil && result0.Height() == blockHeight
 
 //@ func (*TermInCommittee).validatePreprepare
 //@   props C07 C08 C10
@@ -383,7 +390,7 @@ package termincommittee
 //@   | && IsMember(tic.committeeMembers, vcm.content.Sender().MemberId())
 //@   | && ProofOK(tic, vcm.content.SignedHeader().PreparedProof(), vcm.content.SignedHeader().BlockHeight(), vcm.content.SignedHeader().View())
 //@   | && (vcm.content.SignedHeader().PreparedProof() != nil && len(vcm.content.SignedHeader().PreparedProof().Raw()) > 0 ==>
-//@   |      vcm.block != nil && Commits(tic.blockUtils, vcm.content.SignedHeader().BlockHeight(), vcm.block, vcm.content.SignedHeader().PreparedProof().PreprepareBlockRef().BlockHash()))
+//@   |      vcm.block != nil && vcm.block.Height() == vcm.content.SignedHeader().BlockHeight() && Commits(tic.blockUtils, vcm.content.SignedHeader().BlockHeight(), vcm.block, vcm.content.SignedHeader().PreparedProof().PreprepareBlockRef().BlockHash()))
 //@   | && (vcm.block != nil ==> vcm.content.SignedHeader().PreparedProof() != nil && len(vcm.content.SignedHeader().PreparedProof().Raw()) > 0)
 
 //@ iface interfaces.Storage.StoreViewChange
@@ -395,7 +402,7 @@ package termincommittee
 //@   requires [O8.4.not-stale] vcm.content.SignedHeader().View() >= caller.State.view
 //@   requires [O8.4.valid-proof] vcm.content.Sender().MemberId() == caller.myMemberId || ProofOK(caller, vcm.content.SignedHeader().PreparedProof(), vcm.content.SignedHeader().BlockHeight(), vcm.content.SignedHeader().View())
 //@   requires [O8.4.proof-comes-with-its-block] vcm.content.Sender().MemberId() == caller.myMemberId || (vcm.content.SignedHeader().PreparedProof() != nil && len(vcm.content.SignedHeader().PreparedProof().Raw()) > 0 ==>
-//@     | vcm.block != nil && Commits(caller.blockUtils, vcm.content.SignedHeader().BlockHeight(), vcm.block, vcm.content.SignedHeader().PreparedProof().PreprepareBlockRef().BlockHash()))
+//@     | vcm.block != nil && vcm.block.Height() == vcm.content.SignedHeader().BlockHeight() && Commits(caller.blockUtils, vcm.content.SignedHeader().BlockHeight(), vcm.block, vcm.content.SignedHeader().PreparedProof().PreprepareBlockRef().BlockHash()))
 //@   requires [O8.4.block-comes-with-its-proof] vcm.content.Sender().MemberId() == caller.myMemberId || (vcm.block != nil ==> vcm.content.SignedHeader().PreparedProof() != nil && len(vcm.content.SignedHeader().PreparedProof().Raw()) > 0)
 //@   modifies ghost:vcver
 //@   ensures vcver == old(vcver) + 1
